@@ -23,6 +23,7 @@ import IgrisModel.C09.More
 import IgrisModel.C09.Order
 import IgrisModel.C09.Bound
 import IgrisModel.C09.Bounded
+import IgrisModel.C09.Layout
 namespace Igris.C09
 open Igris.Proto
 
@@ -184,9 +185,10 @@ theorem bounded_load (rem : List Byte) (size : Nat) :
     loadS rem size = some (rem.take size ++ List.replicate (size - rem.length) 0#8, rem.drop size) :=
   loadS_eq rem size
 
-/-- contrast (NOT part of the property, which speaks of the bounded storage
-reader only): `binary_buffer_reader` of the archive stack stores `_end` but
-never compares with it; on a truncated input it reads past the end -/
+/-- historical (before `fix: binary_buffer_reader never reads beyond _end`;
+`decodeA` = the reader as it was, now the strict reference reader):
+`binary_buffer_reader` stored `_end` but never compared with it; on a truncated
+input it read past the end.  The code now is `decodeB`, section 13. -/
 theorem archive_reader_unbounded_witness : decodeA (.sc .u32) [1, 2] = none := by decide
 
 /-! ## 4. what the repairs changed (historical witnesses on the model of the old code) -/
@@ -260,12 +262,13 @@ theorem archive_reader_local_seq (ts : List Ty) (input : List Byte) (vs : List V
     ∃ p, input = p ++ r ∧ ∀ y, decodeFieldsA ts (p ++ y) = some (vs, y) :=
   local_decodeFieldsA ts input vs r h
 
-/- TRUNCATED INPUT, archive reader.  The full statement would be "on a truncated
-   encoding the reader never reads beyond the supplied bytes":
-       ∀ ty v k, ∃ v' c, c ≤ k ∧ decodeA ty ((encodeA ty v).take k) = some (v', …)
-   It is FALSE for the code: `binary_buffer_reader` stores `_end` and never compares
-   with it (finding C09-archive-reader-unbounded, probes `ta …`).  What holds is the
-   exact opposite, for EVERY proper prefix of EVERY encoding: -/
+/- TRUNCATED INPUT, archive reader AS IT WAS (`decodeA`).  The full statement "on a
+   truncated encoding the reader never reads beyond the supplied bytes":
+       ∀ ty v k, ∃ v' c, c ≤ k ∧ decode ty ((encodeA ty v).take k) = some (v', …)
+   was FALSE for the code: `binary_buffer_reader` stored `_end` and never compared
+   with it (C09-archive-reader-unbounded, now repaired by b8eaf2a; the full statement is
+   `bounded_archive_reader_safe` on `decodeB`, section 13).  For the old reader the
+   exact opposite held, for EVERY proper prefix of EVERY encoding: -/
 
 /-- `_partial` (characterisation of the finding): on every proper prefix of the
 encoding of a well-formed value the archive reader reads past the end of the
@@ -685,6 +688,32 @@ theorem storage_load_keeps_invariant (s : Store) (size : Nat) (hc : s.cursor ≤
 2^64-1, the clamp is void and the next `load` copies from outside the buffer -/
 theorem storage_cursor_wrap_witness :
     Store.avail ⟨[], 1⟩ = 18446744073709551615 ∧ Store.load ⟨[0x55], 2⟩ 1 = none := by decide
+
+/-! ## 14. extension 2: the wire format against a specification that shares nothing with the writer
+
+`layout` (section 7) still used the model's `leBytes` and value accessors.
+`layoutDoc` (Layout.lean) is written from the format description alone: the byte
+image is the closed form "byte i = ⌊n / 256^i⌋ mod 256", values are taken apart by
+pattern matching; no `u16`, `dumpData`, `dumpScalar`, `leBytes`. -/
+
+/-- the bytes written for ANY well-formed value of ANY type are the documented layout -/
+theorem wire_layout_documented_A (ty : Ty) (v : Val) (h : WF ty v) : encodeA ty v = layoutDoc ty v :=
+  encodeA_eq_layoutDoc ty v h
+
+theorem wire_layout_documented_S (ty : Ty) (v : Val) (hs : ty.supportedS = true) (h : WF ty v) :
+    encodeS ty v = layoutDoc ty v := by
+  rw [encS_eq_encA ty v hs]; exact encodeA_eq_layoutDoc ty v h
+
+/-- and the bounded readers invert the documented layout -/
+theorem documented_layout_decodes (ty : Ty) (v : Val) (rest : List Byte) (h : WF ty v) :
+    decodeB ty (layoutDoc ty v ++ rest) = some (v, rest) := by
+  rw [← encodeA_eq_layoutDoc ty v h]; exact mono_decode ty _ _ _ (rtA ty v rest h)
+
+/-- the specification evaluated: map<string, vector<u16>> {"A": [1, 0x203]}, and a float -/
+theorem wire_layout_documented_example :
+    layoutDoc (.map .str (.vec (.sc .u16))) (.list [.list [.bytes [0x41], .list [.sc 1, .sc 0x203]]]) =
+      [1, 0,  1, 0, 0x41,  2, 0,  1, 0,  3, 2] ∧
+    layoutDoc (.sc .f32) (.sc 0x3f800000) = [0, 0, 0x80, 0x3f] := by decide
 
 /-! ## non-vacuity: the hypotheses are satisfiable by non-trivial values -/
 
